@@ -379,6 +379,32 @@ def footprint_structural(rep, prop='C20'):
     rep.other('structural', f'{prop}.per_call.only_option_api_writes_the_store', w <= OPTION_WRITERS and 'set_options' in w,
               detail=f'functions writing _OPTIONS: {sorted(w)} (allowed: {sorted(OPTION_WRITERS)})',
               key=f'{prop}.per_call.writers')
+    # the library itself changes the thread's option defaults only through the context manager, whose restore is in a
+    # `finally` (proved in the options() contract): no call of set_options() outside fst_options.py, and every call of
+    # options(...) is the context expression of a `with`
+    bad = []
+    n_with = 0
+    for path in sorted(glob.glob(os.path.join(frontend.SRC, '*.py'))):
+        mod = os.path.basename(path)[:-3]
+        if mod == 'fst_options':
+            continue
+        tree = frontend.module(mod).tree
+        with_exprs = {id(it.context_expr) for n in ast.walk(tree) if isinstance(n, (ast.With, ast.AsyncWith)) for it in n.items}
+        for n in ast.walk(tree):
+            if isinstance(n, ast.Call) and isinstance(n.func, (ast.Attribute, ast.Name)):
+                nm = n.func.attr if isinstance(n.func, ast.Attribute) else n.func.id
+                if nm == 'set_options':
+                    bad.append(f'{mod}:{n.lineno} set_options(...)')
+                elif nm == 'options' and isinstance(n.func, ast.Attribute) and ast.unparse(n.func.value) in ('FST', 'fst.FST'):
+                    if id(n) in with_exprs:
+                        n_with += 1
+                    else:
+                        bad.append(f'{mod}:{n.lineno} options(...) not used as a `with` context')
+    rep.other('structural', f'{prop}.restore.library_changes_defaults_only_through_with_options', not bad,
+              detail='; '.join(bad[:4]) or f'{n_with} internal use(s), all `with FST.options(...)`; no set_options() call outside '
+              'the option API', key=f'{prop}.restore.library_with_options',
+              replay={'problems': bad, 'verifier_output': 'a default changed by set_options() and restored by a second call is '
+                      'not restored when the code in between raises'})
     missing = [k for k in ALLOWED_STATE if k not in found]
     if len(found) < 3:
         rep.checker_error(f'footprint scan found only {sorted(found)} (scan broken?)')
